@@ -9,9 +9,10 @@
     Algebra.lean  XR is a commutative monoid under add/mul/max/min (with ±∞, NaN); fold_unrelated
     Reduce.lean   eagerReduce_sem (incl. variables absent from the argument, scale_eq_rep)
     Sound.lean    peval_sound
+    Total.lean    peval_total_core, core_complete_and_sound (typing commutes with evaluation)
   This file: non-vacuity examples.
 -/
-import FunsorVerif.Props.C01.Sound
+import FunsorVerif.Props.C01.Total
 namespace FV.Props.C01
 open FV FV.C01
 
